@@ -71,6 +71,7 @@ package quicstreamheader
 //@ func AssertInterfaceValue
 //@   trusted
 //@   pure
+//@   ensures r1 == nil ==> typeis(v, T)
 //@ package github.com/spikeekips/mitum/network/quicstream/header
 
 //@ func (*baseBroker).readEncoder
@@ -84,9 +85,26 @@ package quicstreamheader
 //@ func (*baseBroker).readHead
 //@   prop C30
 //@   requires broker != nil && broker.Reader != nil && broker.Encoders != nil && 0 <= rpos && rpos <= rend && rend < 4611686018427387904
-//@   modifies ghost:rpos, *
+//@   modifies ghost:rpos
 //@   ensures [layout] r2 == nil ==> r0 != nil && rpos == old(rpos) + 8 + ite(be64(rin, old(rpos)) < 1, 0, be64(rin, old(rpos))) + 8 + ite(be64(rin, old(rpos) + 8 + ite(be64(rin, old(rpos)) < 1, 0, be64(rin, old(rpos)))) < 1, 0, be64(rin, old(rpos) + 8 + ite(be64(rin, old(rpos)) < 1, 0, be64(rin, old(rpos)))))
 //@   ensures [wanted-type] r2 == nil ==> dataType == RequestHeaderDataType || dataType == ResponseHeaderDataType
+// the header that is handed back is of the kind that was asked for (the callers
+// assert its type without a check)
+//@   requires RequestHeaderDataType != ResponseHeaderDataType
+//@   ensures [request-kind] r2 == nil && dataType == RequestHeaderDataType ==> typeis(r1, RequestHeader)
+//@   ensures [response-kind] r2 == nil && dataType == ResponseHeaderDataType ==> typeis(r1, ResponseHeader)
+
+// the two callers: the unchecked type assertion cannot panic
+//@ func (*ClientBroker).ReadResponseHead$1
+//@   prop C30
+//@   requires broker != nil && broker.baseBroker != nil && broker.baseBroker.Reader != nil && broker.baseBroker.Encoders != nil && 0 <= rpos && rpos <= rend && rend < 4611686018427387904
+//@   requires RequestHeaderDataType != ResponseHeaderDataType
+//@   modifies ghost:rpos, *
+//@ func (*HandlerBroker).ReadRequestHead$1
+//@   prop C30
+//@   requires broker != nil && broker.baseBroker != nil && broker.baseBroker.Reader != nil && broker.baseBroker.Encoders != nil && 0 <= rpos && rpos <= rend && rend < 4611686018427387904
+//@   requires RequestHeaderDataType != ResponseHeaderDataType
+//@   modifies ghost:rpos, *
 
 // a body head: one byte of body type; for a fixed length body 8 more bytes
 // holding the length that is reported
